@@ -374,6 +374,16 @@ func (e *Enc) applyContract(fr *Frame, st *State, fc *FuncContract, sig *types.S
 // havocAll havocs every heap; what the enclosing function's `preserves` clause names
 // (state unreachable from callees with an unbounded frame) keeps its contents.
 func (e *Enc) havocAll(st *State) {
+	// preserved ghost variables must exist before the havoc to be related across it
+	for _, pt := range e.preserved {
+		if pt.kind == "ghostvar" {
+			if gv := e.P.CS.GhostVars[pt.name]; gv != nil && e.heapAny(st, "GV_"+pt.name).T == "" {
+				if _, s, err := (&EvalCtx{e: e, spec: gv.Spec}).resolveType(gv.Type); err == nil {
+					e.heap(st, "GV_"+pt.name, s)
+				}
+			}
+		}
+	}
 	pre := st.clone()
 	e.havocAllRaw(st)
 	e.applyPreserved(pre, st, nil)
@@ -389,7 +399,25 @@ func (e *Enc) applyPreserved(pre, st *State, written map[string]bool) {
 		h, ok := e.base[n]
 		return h, ok
 	}
-	for _, pt := range e.preserved {
+	targets := e.preserved
+	for _, dp := range e.deferredPres {
+		ec := &EvalCtx{e: e, st: pre, old: dp.fr.oldSt, bind: dp.bind, spec: dp.spec, fr: dp.fr}
+		t, err := ec.evalModTarget(dp.expr)
+		if err != nil || (t.kind != "loc" && t.kind != "elems" && t.kind != "map") {
+			continue // the local does not exist yet
+		}
+		targets = append(targets[:len(targets):len(targets)], t)
+	}
+	for _, pt := range targets {
+		if pt.kind == "ghostvar" {
+			n := "GV_" + pt.name
+			if nh, ok := st.heaps[n]; ok && !written[n] {
+				if oh, ok := heapBefore(n); ok && oh.T != nh.T {
+					e.fact(Eq(nh, oh))
+				}
+			}
+			continue
+		}
 		if pt.kind == "map" {
 			// the contents of a preserved map are unchanged
 			for n, nh := range st.heaps {
